@@ -5,11 +5,12 @@
    Outcomes: a Go panic inside eval is recovered by handlePanic, which calls os.Exit(1) - the whole
    evaluation is lost: [Panic].  Recursion (through sub-expressions and through calls to other views) is by
    fuel: [OutOfFuel].  Source the model does not cover yields [Unmodelled] (never compared as equal to
-   anything): float / decimal values, Go function calls, template result names "__$" / "__$Log", whereMap,
+   anything): float / decimal values, the native helpers MatchString / FindAllString / Title / Replace (and the code-point
+   helpers on non-ASCII strings), template result names "__$" / "__$Log",
    set union of maps, String of null, relexpr / navigate / tuple expressions. *)
 From Coq Require Import String List ZArith Bool Ascii.
 Import ListNotations.
-Require Import Verif.Eval.Value Verif.Gen.EvalTables.
+Require Import Verif.Eval.Value Verif.Eval.GoFuncs Verif.Gen.EvalTables.
 Local Open Scope string_scope.
 Local Open Scope list_scope.
 
@@ -242,6 +243,12 @@ Fixpoint flat_prefix (inner:value -> option (list value)) (xs:list value) : list
   | l :: xs' => match inner l with Some ys => ys ++ flat_prefix inner xs' | None => [] end
   end.
 
+(* the (key, value) pair a map entry is presented as (evalTransform over a map, whereMap) *)
+Definition internal_pair (k:string) (item:value) : value := VMap (map_put "key" (VStr k) (map_put "value" item [])).
+(* back from the kept pairs to a map *)
+Definition pairs_to_map (ps:list value) : list (string*value) :=
+  fold_right (fun p acc => match p with VMap [(_, VStr k); (_, v)] => map_put k v acc | _ => acc end) [] ps.
+
 Definition apply_efun (f:efun) (sc:scope) (lhs:value) (sv:string) (rhs:expr) : res :=
   let flat (outer inner:value -> option (list value)) (mkv:list value -> value) :=
     match outer lhs with
@@ -281,7 +288,16 @@ Definition apply_efun (f:efun) (sc:scope) (lhs:value) (sv:string) (rhs:expr) : r
                                 (flat_prefix (fun v => match v with VMap _ => Some [v] | _ => None end) xs) sc ;; Panic
       | _ => Panic
       end
-  | G_whereMap => Unmodelled
+  | G_whereMap =>
+      (* whereMap ranges over the Go map (in no fixed order) binding the scope variable to a (key, value) pair and
+         collects the entries whose predicate holds into a map: the result does not depend on the order; the model
+         visits the entries in key order *)
+      match lhs with
+      | VMap m =>
+          '(out, sc1) <- iter_rhs sv rhs keep_where (map (fun kv => internal_pair (fst kv) (snd kv)) m) sc ;;
+          Ok (VMap (pairs_to_map out), sc1)
+      | _ => Panic
+      end
   | G_unknown => Unmodelled
   end.
 
@@ -324,8 +340,6 @@ Fixpoint transform_loop (k:appender_kind) (sv:string) (ss:list stmt) (xs:list va
       acc' <- append_with k acc r ;;
       transform_loop k sv ss xs' acc' sc1
   end.
-
-Definition internal_pair (k:string) (item:value) : value := VMap (map_put "key" (VStr k) (map_put "value" item [])).
 
 (* the scope variable once an iteration is over, as the source does it NOW (Gen.EvalTables): [saved] is the
    binding the variable had before the iteration *)
@@ -400,32 +414,89 @@ Fixpoint bind_params (ps:list string) (vs:list value) (cs:scope) : scope :=
 Definition is_dot_func (f:string) : option string :=
   match f with String c rest => if Ascii.eqb c "."%char then Some rest else None | EmptyString => None end.
 
-Definition eval_call (vs:views) (sc:scope) (fn:string) (args:list expr) : res :=
-  match assoc String.eqb fn vs with
-  | Some v =>
-      if negb (Nat.eqb (List.length (v_params v)) (List.length args)) then Ok (VNil, sc)
-      else
+(* evalGoFunc: a name outside GoFuncMap, a wrong number of arguments and an argument that is not of the expected
+   type all yield nil; the helper's result goes through reflectToValue, whose test of a slice result looks at
+   element 0 (slice_result_guard says whether the length is tested first in the source as it is now) *)
+Definition from_reflect (r:harg) : outcome value :=
+  match r with
+  | HB b => Ok (VBool b)
+  | HI z => Ok (VInt z)
+  | HS s => Ok (VStr s)
+  | HL [] => match slice_result_guard with SliceIndexUnguarded => Panic | SliceLenGuarded => Ok (VList []) | SliceUnknown => Unmodelled end
+  | HL l => Ok (VList (map VStr l))
+  end.
+Definition go_func (fn:string) (avs:list value) : outcome value :=
+  match assoc String.eqb fn go_func_map with
+  | None => Ok VNil
+  | Some (impl, targs, _) =>
+      if negb (Nat.eqb (List.length avs) (List.length targs)) then Ok VNil
+      else match convert_args avs targs with
+           | None => Unmodelled
+           | Some None => Ok VNil
+           | Some (Some hs) => match go_impl impl hs with Some r => from_reflect r | None => Unmodelled end
+           end
+  end.
+
+(* callScope[params[i].Name] = Eval(ee, assign, argExpr) when callScope IS the caller's map *)
+Fixpoint bind_args_shared (ps:list string) (args:list expr) (sc:scope) : outcome scope :=
+  match ps, args with
+  | p :: ps', a :: args' => '(v, sc1) <- ev sc a ;; bind_args_shared ps' args' (sset p v sc1)
+  | _, _ => Ok sc
+  end.
+
+(* the branch of evalCall for a name that is one of the application's views *)
+Definition call_view (sc:scope) (v:view) (args:list expr) : res :=
+  if negb (Nat.eqb (List.length (v_params v)) (List.length args)) then Ok (VNil, sc)
+  else
+    match call_scope with
+    | CsFresh =>
         '(avs, sc1) <- eval_seq args sc ;;
         '(r, _) <- ev (bind_params (v_params v) avs []) (v_body v) ;;
         Ok (r, sc1)
-  | None =>
-      match is_dot_func fn with
-      | Some f =>
-          if String.eqb f "count" then
-            match args with
-            | [] => Panic
-            | a :: _ =>
-                '(c, sc1) <- ev sc a ;;
-                match c with
-                | VList l | VSet l => Ok (VInt (Z.of_nat (List.length l)), sc1)
-                | VMap m => Ok (VInt (Z.of_nat (List.length m)), sc1)
-                | _ => Panic
-                end
-            end
-          else Panic
-      | None => Unmodelled          (* evalGoFunc *)
+    | CsShared => sc1 <- bind_args_shared (v_params v) args sc ;; ev sc1 (v_body v)
+    | CsUnknown => Unmodelled
+    end.
+
+(* the branch for a name starting with "." *)
+Definition call_dot (sc:scope) (f:string) (args:list expr) : res :=
+  if String.eqb f "count" then
+    match args with
+    | [] => Panic
+    | a :: _ =>
+        '(c, sc1) <- ev sc a ;;
+        match c with
+        | VList l | VSet l => Ok (VInt (Z.of_nat (List.length l)), sc1)
+        | VMap m => Ok (VInt (Z.of_nat (List.length m)), sc1)
+        | _ => Panic
+        end
+    end
+  else Panic.
+
+(* the tail of evalCall: all arguments, then evalGoFunc *)
+Definition call_go_func (sc:scope) (fn:string) (args:list expr) : res :=
+  '(avs, sc1) <- eval_seq args sc ;; r <- go_func fn avs ;; Ok (r, sc1).
+
+(* evalCall looks the name up in the places and in the ORDER its statements have in the source now (Gen call_order):
+   a place that does not know the name passes it on to the next one; the helper table is the last resort *)
+Fixpoint resolve_call (order:list call_step) (vs:views) (sc:scope) (fn:string) (args:list expr) : res :=
+  match order with
+  | [] => Unmodelled
+  | CallView :: rest =>
+      match assoc String.eqb fn vs with
+      | Some v => call_view sc v args
+      | None => resolve_call rest vs sc fn args
       end
+  | CallDot :: rest =>
+      match is_dot_func fn with
+      | Some f => call_dot sc f args
+      | None => resolve_call rest vs sc fn args
+      end
+  | CallGoFunc :: _ => call_go_func sc fn args
+  | CallUnknown :: _ => Unmodelled
   end.
+
+Definition eval_call (vs:views) (sc:scope) (fn:string) (args:list expr) : res :=
+  resolve_call call_order vs sc fn args.
 
 (* DefaultBinExprStrategy.eval with operator op *)
 Definition eval_default (op:binop) (sc:scope) (lhs rhs:expr) : res :=
